@@ -77,9 +77,11 @@ func runC04(e *Env) {
 	e.Rule = "registration programs (AST): Use / Group (nested to depth 4, via Group or Controller) / routes with variadic middleware and later Route.Use calls (immediately or at program end) / top-level Use before, between and after routes / NotFound / NotAllowed, HandleMethodNotAllowed on/off, cache off/on; every handler is a fresh closure calling Next 0, 1 or 2 times (main handlers too). One request per route + a not-found + a wrong-method request + an overlapping pair (a second request served by the same router while the first is parked inside one of its handlers); the recorded enter/leave trace must equal the onion interpreter's trace of the chain predicted by the reference scope model. Non-trivial: depth >= 2, Use after a route, sibling groups, or a 0/2-Next handler in the chain; distinct by (program, request)."
 	e.Assumptions = []string{
 		"the 40-line scope model + 15-line onion interpreter in harness/mon/prog.go are the trusted statement of the documented order",
-		"chains stay far below the handler limit here (long chains are C05's business)",
+		"the generated programs keep chains short; the part long-chains drives chains of 40..327 entries (global + group + route middleware + main handler; a route's own chain stays within the registration limit of 63, the global middleware is not counted by it) in which nobody aborts",
 	}
 	e.RunCases("programs", e.N(15000, 3000000), 0, c04Case)
+	e.RunCases("long-chains", e.N(400, 40000), 0, c04LongCase)
+	e.Require("long.chains_64_to_127", 100)
 	e.Require("requests.route", 5000)
 	e.Require("requests.not_found", 1000)
 	e.Require("requests.not_allowed", 300)
@@ -225,6 +227,117 @@ func c04Case(t *T) {
 	} else {
 		check("not_found", other, rs.RequestPath(r), append(append([]*MW{}, p.Globals...), nf...), nfStatus)
 	}
+}
+
+// c04LongCase: long chains in which nobody aborts. The route's own chain (group +
+// route middleware + main) respects the registration limit; global middleware,
+// which that limit does not count, makes the executed chain longer.
+func c04LongCase(t *T) {
+	r := t.R
+	nRoute := r.IntN(31)         // route middleware
+	nGroup := r.IntN(62 - nRoute) // group middleware; group+route+main <= 62
+	if chance(r, 1, 4) {
+		nGroup = 61 - nRoute // the registration limit exactly
+	}
+	total := 40 + r.IntN(88) // 40..127
+	over := t.Idx%20 == 0
+	if over {
+		total = 128 + r.IntN(200) // beyond what an 8-bit cursor can index
+	}
+	nGlobal := total - 1 - nGroup - nRoute
+	if nGlobal < 0 {
+		nGlobal = 0
+	}
+	total = nGlobal + nGroup + nRoute + 1
+	mk := func(prefix string, n int) []*MW {
+		out := make([]*MW, n)
+		for i := range out {
+			nx := 1
+			if chance(r, 1, 40) {
+				nx = pick(r, []int{0, 2})
+			}
+			out[i] = &MW{ID: fmt.Sprintf("%s%d", prefix, i), Nexts: nx}
+		}
+		return out
+	}
+	globals, group, route := mk("G", nGlobal), mk("Q", nGroup), mk("M", nRoute)
+	main := &MW{ID: "main", Nexts: pick(r, []int{0, 0, 1}), Main: true}
+	useCalls := pick(r, []string{"one", "each", "split"})
+	t.Describe(func() any {
+		return map[string]any{"global": nGlobal, "group": nGroup, "route": nRoute, "total_handlers": total, "use_calls": useCalls,
+			"handlers_not_calling_next_once": func() (s []string) {
+				for _, m := range append(append(append(append([]*MW{}, globals...), group...), route...), main) {
+					if m.Nexts != 1 {
+						s = append(s, m.String())
+					}
+				}
+				return
+			}()}
+	})
+	hs := func(ms []*MW) []rux.HandlerFunc {
+		out := make([]rux.HandlerFunc, len(ms))
+		for i, m := range ms {
+			out[i] = m.Handler()
+		}
+		return out
+	}
+	var router *rux.Router
+	if pv, panicked := catch(func() {
+		router = rux.New()
+		gh := hs(globals)
+		switch {
+		case useCalls == "one" || len(gh) < 2:
+			router.Use(gh...)
+		case useCalls == "each":
+			for _, h := range gh {
+				router.Use(h)
+			}
+		default:
+			k := len(gh) / 2
+			router.Use(gh[:k]...)
+			router.Use(gh[k:]...)
+		}
+		router.Group("/g", func() {
+			router.GET("/x/{id}", main.Handler(), hs(route)...)
+		}, hs(group)...)
+	}); panicked {
+		t.Fail("registration-panic", "registering %d global + %d group + %d route middleware panicked: %v", nGlobal, nGroup, nRoute, pv)
+		return
+	}
+	t.AutoSample()
+	chain := append(append(append(append([]*MW{}, globals...), group...), route...), main)
+	want := OnionEvents(chain)
+	rec, pv, panicked := Serve(router, NewReq("GET", "/g/x/7"))
+	if panicked {
+		t.Fail("servehttp-panic", "chain of %d handlers: ServeHTTP panicked: %v", total, pv)
+		return
+	}
+	t.Tracef("chain of %d handlers (%d global, %d group, %d route, main): status %d, %d events, first %v ... last %v", total, nGlobal, nGroup, nRoute, rec.Status(), len(rec.Events), head(rec.Events, 3), tail(rec.Events, 3))
+	if total >= 64 && total <= 127 {
+		t.Count("long.chains_64_to_127", 1)
+	}
+	t.NonTrivial(fmt.Sprint(nGlobal, nGroup, nRoute, useCalls))
+	if eventsEqual(want, rec.Events) {
+		if over {
+			t.Count("long.chains_ge_128_correct", 1)
+		}
+		return
+	}
+	t.Fail("long-chain-"+classifyTrace(want, rec.Events), "chain of %d handlers (%d global, %d group, %d route middleware + main), nobody aborts:\n expected %d events: %s ...\n observed %d events: %s ...", total, nGlobal, nGroup, nRoute, len(want), strings.Join(head(want, 12), " "), len(rec.Events), strings.Join(head(rec.Events, 12), " "))
+}
+
+func head(s []string, n int) []string {
+	if len(s) > n {
+		return s[:n]
+	}
+	return s
+}
+
+func tail(s []string, n int) []string {
+	if len(s) > n {
+		return s[len(s)-n:]
+	}
+	return s
 }
 
 // ---------------------------------------------------------------------------
